@@ -372,6 +372,9 @@ func mfHeadlineOf(d mfDelivery) string {
 }
 
 func mfRunAmmoCase(c mfCase) mfLine {
+	if c.Cls == "degen" {
+		return mfRunDegenCase(c)
+	}
 	data, entries := mfRenderCase(c)
 	passes := mfPasses(c)
 	var r mfRunResult
